@@ -2,7 +2,7 @@
    joins the run exactly when all criteria accept; merged outputs span min start .. max end;
    fresh ids are pairwise distinct; with the default criteria on a start-ordered single class
    the outputs are separated by at least one uncovered base and every output is covered. *)
-From GV Require Import Base.Prelude Base.PyStr Model.Bins Model.DB Model.Parser Model.Query Model.Import Model.Merge
+From GV Require Import Proofs.GenCritEquiv Base.Prelude Base.PyStr Model.Bins Model.DB Model.Parser Model.Query Model.Import Model.Merge
   Gen.GenLib Gen.GenCriteria Proofs.C04Proofs.
 From Coq Require Import ZifyBool.
 Open Scope Z_scope.
@@ -224,7 +224,7 @@ Section OneClass.
     accept default_criteria acc f n = (m_start acc <=? m_start f) && (m_start f <=? m_end acc + 1).
   Proof.
     intros [A1 [A2 A3]] [B1 [B2 B3]]. unfold accept, default_criteria. cbn [forallb crit_eval].
-    unfold gen_seqid, gen_strand, gen_feature_type, gen_overlap_end_inclusive.
+    rewrite gen_seqid_spec, gen_strand_spec, gen_feature_type_spec, gen_ov_end_spec.
     rewrite A1, A2, A3, B1, B2, B3, !str_eqb_refl. cbn [andb]. rewrite !andb_true_r. reflexivity.
   Qed.
 
